@@ -24,11 +24,16 @@ Core Lean only (the driver links this file).
   put on the network only once it is part of the **durable** version (C05).
   A crash is `vol := dur; pending := []; role := follower`.
 * The network is a monotone soup: anything in it can be received any number of times in any order.
-* A vote request leaves at `campaign`, i.e. possibly before the new term (and the tail of the log) is
-  durable.  A node that crashed may therefore campaign twice for one term with different logs; it
-  may only become leader if the log it leads with is at least as up to date as every request of
-  that candidacy that is in the soup (`reqVotesCovered`, SPEC_ISSUES.md issue 1 /
-  SPEC_CHANGES.md #1): the log may have grown since the first request, it must not have shrunk.
+* `campaign` only changes the node (candidate of `term+1`, voting for itself).  The vote request is
+  put into the soup by a separate action `sendReqVote`, which a candidate may take any number of
+  times (or never: the implementation creates the request at campaign time but hands it to the
+  network only with the next `Ready`; a candidate that crashes in between never sent it).  The
+  request advertises the candidate's current volatile term and log, i.e. it may leave before the new
+  term (and the tail of the log) is durable.  A node that crashed may therefore campaign twice for
+  one term with different logs; it may only become leader if the log it leads with is at least as
+  up to date as every request of that candidacy that is in the soup (`reqVotesCovered`,
+  SPEC_ISSUES.md issue 1 / SPEC_CHANGES.md #1): the log may have grown since the first request, it
+  must not have shrunk.  A request that was never sent constrains nothing.
 -/
 namespace RaftVerif.Spec
 
@@ -162,8 +167,11 @@ def keepsCommitted (l : Log) (prev prevTerm : Nat) (ents : Log) (commit : Nat) :
   | some l' => l'.take commit == l.take commit
 
 inductive Action where
-  /-- start a real election: term+1, vote for self, send vote requests -/
+  /-- start a real election: term+1, vote for self (the vote request leaves with `sendReqVote`) -/
   | campaign (n : NodeId)
+  /-- a candidate puts the vote request of its current candidacy (current volatile term and log)
+      on the network; may be taken any number of times, or never -/
+  | sendReqVote (n : NodeId)
   /-- adopt a higher term seen in any message -/
   | updateTerm (n : NodeId) (t : Nat)
   /-- grant the vote of the current term to `c` (volatile; released only once durable) -/
@@ -215,6 +223,7 @@ def commitRange (l : Log) (lo hi t : Nat) : List (Nat × Ent × Nat) :=
 (for promises) the node's own durable version. -/
 def enabled (cfg : Cfg) (s : State) : Action → Prop
   | .campaign n => (s.nodes n).role ≠ .leader ∧ n ≠ 0
+  | .sendReqVote n => (s.nodes n).role = .candidate
   | .updateTerm n t => (s.nodes n).vol.term < t
   | .grant n c lt li =>
       let nd := s.nodes n
@@ -275,8 +284,10 @@ def apply (s : State) : Action → State
       let nd := s.nodes n
       let v := { nd.vol with term := nd.vol.term + 1, vote := n,
                              votes := (nd.vol.term + 1, n) :: nd.vol.votes }
-      { setNode s n { nd with vol := v, role := .candidate } with
-        msgs := Msg.reqVote v.term n v.log.lastTerm v.log.length :: s.msgs }
+      setNode s n { nd with vol := v, role := .candidate }
+  | .sendReqVote n =>
+      let nd := s.nodes n
+      { s with msgs := Msg.reqVote nd.vol.term n nd.vol.log.lastTerm nd.vol.log.length :: s.msgs }
   | .updateTerm n t =>
       let nd := s.nodes n
       setNode s n { nd with vol := { nd.vol with term := t, vote := 0 }, role := .follower }
